@@ -602,7 +602,21 @@ def run_case(case, probe_held=False, check_release=False, op_budget=60.0) -> Run
 # generators
 
 
-def gen_case(rng, adv=None, delay=0.0) -> Dict[str, Any]:
+def gen_case(rng, adv=None, delay=0.0, sfail=None) -> Dict[str, Any]:
+    """sfail: None = state_dict() fails in ~12% of the cases, False = never, True = always (when a position is available)"""
+    c = _gen_case(rng, adv, delay)
+    if sfail is False or (sfail is None and rng.random() >= 0.12):
+        return c
+    f, n = c["f"], len(c["items"])
+    cands = [0] + ([p for p in range(1, n + 1) if p % f == 0] if f > 0 else [])
+    p = rng.choice(cands[1:] if len(cands) > 1 and rng.random() < 0.8 else cands)
+    c["sfail"] = p
+    if p == 0:
+        c["hist"] = []
+    return c
+
+
+def _gen_case(rng, adv=None, delay=0.0) -> Dict[str, Any]:
     n = rng.choice([0, 1, 2, 3, 3, 4, 5, 6, 8])
     items = [rng.randrange(0, 50) for _ in range(n)]
     pf = rng.choice([1, 1, 2, 2, 3, 4])
@@ -637,7 +651,7 @@ def gen_case(rng, adv=None, delay=0.0) -> Dict[str, Any]:
 
 
 def case_sig(case):
-    return [case["pf"], case["f"], case["items"], case["term"], case["hist"], case["sched"], case.get("delay", 0.0)]
+    return [case["pf"], case["f"], case["items"], case["term"], case["hist"], case["sched"], case.get("delay", 0.0), case.get("sfail")]
 
 
 # --------------------------------------------------------------------------------------------------------------
@@ -701,8 +715,8 @@ def check_obs(case, obs) -> List[Tuple[str, str]]:
         return out
     items, tk, _ = eff_stream(case, 0)   # bases of later generations are multiples of f, so due-ness is the same
     n = len(items)
-    term = (("e", "sd") if sfail is not None and tk == "error" and n < len(case["items"]) and n == sfail - 1 and
-            (case["f"] > 0 and sfail % case["f"] == 0) else (("e", "src") if tk == "error" else ("s",)))
+    due = sfail is not None and case["f"] > 0 and 0 < sfail <= len(case["items"]) and sfail % case["f"] == 0
+    term = ("e", "sd") if due else (("e", "src") if tk == "error" else ("s",))
     pos, ended, sd_pos, after_reload = 0, False, None, False
     gbase, sd_snap = 0, 0
     oi = 0
@@ -861,14 +875,16 @@ def run_ko(ctx: Ctx, only: Optional[str] = None, n: Optional[int] = None):
     for _ in range(n):
         jobs.append(("rand", gen_case(rng)))
     for _ in range(max(4, n // 8)):
-        c = gen_case(rng, adv=False)
+        c = gen_case(rng, adv=False, sfail=False)
         c["hist"] = []
         jobs.append(("c06", c))
+    for _ in range(max(6, n // 6)):
+        jobs.append(("sfail", gen_case(rng, sfail=True)))
     # slow sources in virtual time, reset mid-epoch: slower than the two joins (known defect), and faster (must be clean)
     jobs.append(("slow%.1f" % SLOW, copy.deepcopy(WITNESS_SLOW_RESET)))
     for d in (SLOW, 0.3):
         for _ in range(max(4, n // 30)):
-            c = gen_case(rng, adv=False, delay=d)
+            c = gen_case(rng, adv=False, delay=d, sfail=False)
             if len(c["items"]) < 3:
                 c["items"] = c["items"] + [rng.randrange(50, 60) for _ in range(3 - len(c["items"]))]
             nn = len(c["items"])
@@ -901,7 +917,7 @@ def replay(ctx: Ctx, payload) -> Tuple[bool, str]:
             return True, "trace not validated (the abandoned reader drove the source: known C12 region)"
         a = Driver().run([o["req"]])[0]
         return bool(a and a.get("ok")), str(a)
-    kind = "c06" if not case.get("hist") else "rand"
+    kind = "c06" if not case.get("hist") and case.get("sfail") is None else "rand"
     fails, _ = _ko_job(ctx, (kind, case))
     want = payload.get("kind")
     hit = [f for f in fails if want is None or f[0] == want]
@@ -919,6 +935,7 @@ THEOREMS = [
     "TDV.PF.stop_only_at_end",
     "TDV.PF.error_after_prefix",
     "TDV.PF.terminal_surfaced",
+    "TDV.PF.snapshot_error_surfaced",
     "TDV.PF.state_tracks_consumer",
     "TDV.PF.state_closed_form_everywhere",
     "TDV.PF.progress",
@@ -934,12 +951,13 @@ THEOREMS = [
 THEOREMS_BY_PROP = {
     "C04": ["TDV.PF.inv_reachable", "TDV.PF.delivered_prefix", "TDV.PF.delivered_isPrefix", "TDV.PF.complete", "TDV.PF.stop_only_at_end"],
     "C06": ["TDV.PF.inv_reachable", "TDV.PF.state_tracks_consumer", "TDV.PF.state_closed_form_everywhere"],
-    "C11": ["TDV.PF.error_after_prefix", "TDV.PF.terminal_surfaced", "TDV.PF.progress", "TDV.PF.variant", "TDV.PF.next_after_end_prompt"],
+    "C11": ["TDV.PF.error_after_prefix", "TDV.PF.terminal_surfaced", "TDV.PF.snapshot_error_surfaced", "TDV.PF.progress", "TDV.PF.variant", "TDV.PF.next_after_end_prompt"],
     "C12": ["TDV.PF.readahead_bound", "TDV.PF.held_le", "TDV.PF.release_never_overflows", "TDV.PF.two_drivers_witness",
             "TDV.PF.single_driver_statement_false", "TDV.PF.single_driver_partial"],
     "C17": ["TDV.PF.stop_stable", "TDV.PF.released", "TDV.PF.reader_never_stuck", "TDV.PF.single_driver_partial"],
 }
 RULE = ("cases from one PRNG: prefetch_factor 1-4, snapshot_frequency 0-4, sources of 0-8 ints ending in StopIteration or an exception, "
+        "optionally with a state_dict() that raises at a position where a snapshot is due (or at position 0 = reader start-up), "
         "consumer histories (next, state_dict at every position, exhaustion, extra next() after the end, reset mid-epoch, load into a "
         "new node, del), schedules: seeded random and adversarial timeouts; slow sources in virtual time (0.3 s and 1.5 s per item) across "
         "reset(). A validated trace / oracle run is non-trivial when the reader was at least one item ahead of the consumer "
@@ -959,5 +977,7 @@ ASSUMPTIONS = [
     "1 <= prefetch_factor for progress (prefetch_factor=0 is accepted by the constructor and can never make progress)",
     "within one generation the source is driven only by that generation's reader (what single_driver_partial provides); after a "
     "join gave up the per-generation source view no longer applies and such traces are not validated, the oracle reports them",
+    "a source.state_dict() that raises where a snapshot is due is, for the protocol, the stream items[:p-1] + error "
+    "(Cfg.withSnapErr): next(source)+state_dict() is the single reader action rLeave; K-T checks this against the real reader",
     "get_initial_snapshot's 60 s ACK_TIMEOUT does not expire (the reader is scheduled within 60 s of its start)",
 ]
